@@ -28,6 +28,11 @@ THEOREMS = [
     "Nix.C09.scalable_equivalence",
     "Nix.C09.scaling_identity",
     "Nix.C09.scaling_refused_iff_not_scalable",
+    "Nix.C09.compound_sequence",
+    "Nix.C09.invert_power_negates",
+    "Nix.C09.invert_power_twice",
+    "Nix.C09.split_compound_sequence",
+    "Nix.C09.split_compound_roundtrip",
 ]
 ASSUMPTIONS = [
     "Python's `re` engine is replaced by a hand-written backtracking matcher for the regex shapes units.py "
